@@ -136,7 +136,11 @@ func c10Oracle(p *Plan) *Verdict {
 	switch {
 	case reqMax <= L && (b == nil || respMax <= L):
 		v.probe("fits")
-		if exhausted {
+		if exhausted && rc.Client.Form == FormConnectStream && clientEndFrameMayExceed(&rc.Backend.Resp, L) {
+			// the end-of-stream message the Connect client is owed (trailing metadata, error) is itself a message of the
+			// stream and may be over a small limit: rejecting that is within the statement
+			v.probe("client-end-frame-over-limit")
+		} else if exhausted {
 			v.violate("rejected-although-fits", facts, "every representation fits in L=%d (%v) but the RPC failed with resource_exhausted: %q", L, names, o.Err.Msg)
 		} else if !o.sawSuccess() || !reqDelivered || !respDelivered {
 			v.Incidental = append(v.Incidental, "in-limit message not delivered")
@@ -182,6 +186,19 @@ func c10Oracle(p *Plan) *Verdict {
 		v.probe("decompressed")
 	}
 	return v
+}
+
+// clientEndFrameMayExceed: a generous estimate (twice the reference encoding plus slack) of the Connect end-of-stream
+// message for this response against the limit; near the boundary the oracle abstains rather than mirror the encoder.
+func clientEndFrameMayExceed(rp *RespPlan, L int64) bool {
+	n := len(`{"metadata":{}}`)
+	for _, kv := range rp.Trailers {
+		n += len(kv[0]) + len(kv[1]) + 8
+	}
+	if rp.Err != nil {
+		n += len(connectErrToJSON(rp.Err)) + 12
+	}
+	return int64(2*n+64) > L
 }
 
 func clientKind(form string) string {
